@@ -554,19 +554,47 @@ func rulePU8() Rule {
 			// print itself must push before dispatching and pop before Flush: covered by balance (net 0);
 			// redir indexes the top: depth >= 1 holds because every caller chain starts in print after its push.
 			if pf := c.fn("printer.(*printer).print"); pf != nil && len(pf.Body.List) > 0 {
-				first, ok := pf.Body.List[0].(*ast.ExprStmt)
-				isPush := false
-				if ok {
-					if call, ok := first.X.(*ast.CallExpr); ok {
-						if fo := core.StaticCallee(pf.Info(), call); fo != nil && c.P.FuncOf(fo) == push {
-							isPush = true
-						}
+				// every call of a printing function in print is preceded, on every path, by the push
+				// (a return taken before anything is printed needs no frame)
+				pinfo := pf.Info()
+				isCallOf := func(n ast.Node, g *core.Func) bool {
+					call, ok := n.(*ast.CallExpr)
+					if !ok {
+						return false
 					}
+					fo := core.StaticCallee(pinfo, call)
+					return fo != nil && c.P.FuncOf(fo) == g
 				}
-				if isPush {
+				pushed := core.NewFlow(pf).MustSeen(false, func(n ast.Node) bool { return isCallOf(n, push) }, nil)
+				bad := token.NoPos
+				npr := 0
+				pf.OwnNodes(func(n ast.Node) bool {
+					call, ok := n.(*ast.CallExpr)
+					if !ok {
+						return true
+					}
+					fo := core.StaticCallee(pinfo, call)
+					if fo == nil {
+						return true
+					}
+					g := c.P.FuncOf(fo)
+					if g == nil || g == push || g.Pkg != pf.Pkg || g.Decl == nil || g.Decl.Recv == nil {
+						return true
+					}
+					npr++
+					if !pushed[call] && bad == token.NoPos {
+						bad = call.Pos()
+					}
+					return true
+				})
+				if bad == token.NoPos && npr > 0 {
 					rr.OK(pf, pf.Name+"|push-first", pf.Pos(), "first", "print pushes a frame before any node is printed, so the stack is non-empty wherever a redirection is printed")
 				} else {
-					rr.Bad(pf, pf.Name+"|push-first", pf.Pos(), "print does not start by pushing a frame: printing a redirection indexes an empty stack")
+					at := bad
+					if at == token.NoPos {
+						at = pf.Pos()
+					}
+					rr.Bad(pf, pf.Name+"|push-first", at, "print does not start by pushing a frame: printing a redirection indexes an empty stack")
 				}
 			}
 		}}
